@@ -693,7 +693,7 @@ func opLet(env *LEnv, args *LVal) *LVal {
 		if len(bind.Cells) != 2 {
 			return env.Errorf("first argument is not a list of pairs")
 		}
-		vals[i] = letenv.Eval(bind.Cells[1])
+		vals[i] = env.Eval(bind.Cells[1])
 		if vals[i].Type == LError {
 			return vals[i]
 		}
